@@ -97,11 +97,11 @@ type cachedRef struct {
 	ems     bool
 }
 
-func c19Scenario(depth int) *explore.Scenario {
+func c19Scenario(name string, depth int, howAxis bool) *explore.Scenario {
 	parrots := c19Parrots()
 	names := []string{"a.example", "b.example"}
 	return &explore.Scenario{
-		Name: "connection-histories",
+		Name: name,
 		// steps after the second may deviate from "repeat the previous step" in at most 2 axes
 		Budget: map[string]int{"later": 2},
 		Run: func(x *explore.X) (r explore.Result) {
@@ -183,7 +183,34 @@ func c19Scenario(depth int) *explore.Scenario {
 					}
 					scfg.CurvePreferences = []tls.CurveID{tls.CurveID(grp)}
 				}
-				hs := peer.Run(ccfg, p.client.ID, scfg, peer.Opts{Prepare: p.client.prepare(), Echo: true})
+				prep := p.client.prepare()
+				if howAxis && k == depth-1 {
+					// how the caller reaches the handshake of the last connection: the documented
+					// inspect / edit / connect orders must offer the cached session in a valid form too
+					how := x.Choose("how", 4)
+					if how != 0 {
+						inner := prep
+						prep = func(u *tls.UConn) error {
+							if inner != nil {
+								if err := inner(u); err != nil {
+									return err
+								}
+							}
+							if err := u.BuildHandshakeState(); err != nil {
+								return err
+							}
+							switch how {
+							case 2:
+								return u.SetClientRandom(rep(0x5c, 32))
+							case 3:
+								return u.BuildHandshakeState()
+							}
+							return nil
+						}
+						hist[len(hist)-1] += []string{"", "[prebuilt]", "[prebuilt+SetClientRandom]", "[built twice]"}[how]
+					}
+				}
+				hs := peer.Run(ccfg, p.client.ID, scfg, peer.Opts{Prepare: prep, Echo: true})
 				what := strings.Join(hist, " ; ")
 				if hs.CPanic != "" {
 					r.Violate("C19|panic|"+errClass(fmt.Errorf("%s", firstLineOf(hs.CPanic))), "history %s: client panicked: %s", what, truncStr(hs.CPanic, 400))
@@ -307,15 +334,15 @@ func pickErr(hs *peer.HS) error {
 
 func c19Scenarios(thorough bool) []*explore.Scenario {
 	if thorough {
-		return []*explore.Scenario{c19Scenario(4)}
+		return []*explore.Scenario{c19Scenario("connection-histories", 4, false), c19Scenario("two-connections-explicit-build-orders", 2, true)}
 	}
-	return []*explore.Scenario{c19Scenario(3)}
+	return []*explore.Scenario{c19Scenario("connection-histories", 3, false), c19Scenario("two-connections-explicit-build-orders", 2, true)}
 }
 
 func init() {
 	register(&Prop{ID: "C19", Level: "model_checking", Variant: "A", Scenarios: c19Scenarios,
 		Run: func(c *explore.Check, thorough bool) {
-			c.Rule = "histories of 3 (4) connections sharing one ClientSessionCache and one server ticket key: the first two steps range over the full product of 7 clients (Chrome_100, Chrome_100_PSK, Chrome_112_PSK_Shuf, Firefox_120, Golang, custom TLS 1.2 with and without extended_master_secret) x server {TLS 1.2, TLS 1.3, TLS 1.3 answering with an HRR} x server name {a, b} x clock {+1 min, +8 days}; later steps repeat the previous step with <=2 deviations; every step handshakes, echoes (absorbing NewSessionTicket) and closes. Oracle per step against a reference cache: must resume iff an unexpired session of the same parrot/name/version exists and the spec carries the needed extension (also through an HRR); DidResume agrees on both ends; pre_shared_key last and well-formed; no handshake failure at all; no ticket issued for one name offered to another. distinct = history"
+			c.Rule = "histories of 3 (4) connections sharing one ClientSessionCache and one server ticket key: the first two steps range over the full product of 7 clients (Chrome_100, Chrome_100_PSK, Chrome_112_PSK_Shuf, Firefox_120, Golang, custom TLS 1.2 with and without extended_master_secret) x server {TLS 1.2, TLS 1.3, TLS 1.3 answering with an HRR} x server name {a, b} x clock {+1 min, +8 days}; later steps repeat the previous step with <=2 deviations; every step handshakes, echoes (absorbing NewSessionTicket) and closes; plus all 2-connection histories with the second connection reached by {Handshake, BuildHandshakeState+Handshake, BuildHandshakeState+SetClientRandom+Handshake, BuildHandshakeState twice+Handshake}. Oracle per step against a reference cache: must resume iff an unexpired session of the same parrot/name/version exists and the spec carries the needed extension (also through an HRR); DidResume agrees on both ends; pre_shared_key last and well-formed; no handshake failure at all; no ticket issued for one name offered to another. distinct = history"
 			c.Assumptions = []string{"reference resumption table (mc/props/c19.go) written from the property statement; ticket lifetime 7 days", "OmitEmptyPsk is on for every client"}
 			runAll(c, c19Scenarios(thorough), 0)
 			c.Gate(c.Total.Counters["resumed"] > 500, "non-vacuity: %d resumed connections", c.Total.Counters["resumed"])
